@@ -3,7 +3,7 @@
    Clause table (statement of C16 -> what states it):
    | clause                                                      | stated by                                                   | status |
    | stored record is read back identically from the patched object | C16_roundtrip_annotations, C16_roundtrip_pending, C16_status_store_reads_merge, C16_roundtrip_status_first_store | full for the annotation progress storage (every hash, prefix, v1/v2, verbosity, id, record, body, pending patch); status progress storage: C16_status_store_reads_merge (exact: the read-back is the RFC 7386 merge of the record into the old one, every path/id/record/body) and C16_roundtrip_status_first_store (identical for a first store of a flat null-free record); smart (default) progress storage: C16_roundtrip_smart, C16_smart_store_is_ann_store (full); diff-base storages: C16_roundtrip_diffbase_annotations, C16_roundtrip_diffbase_status (full, every non-null essence incl. the empty one); other multi storages: D-tied on the same inputs + round-trip monitor |
-   | can be purged completely                                    | C16_purged_completely, C16_purged_completely_status         | full for the annotation storage (fresh or any pending patch, all keys incl. v1 and -ofDRS); status storage: C16_purged_completely_status (fresh patch, every stanza path; pending patch: D-tied + monitor) |
+   | can be purged completely                                    | C16_purged_completely, C16_purged_completely_status         | full for the annotation storage (fresh or any pending patch, all keys incl. v1 and -ofDRS); status storage: C16_purged_completely_status; smart (default) storage: C16_purged_completely_smart (fresh patch, every stanza path; pending patch: D-tied + monitor) |
    | never disturbs other handlers' records / other prefixes / user data | C16_isolation_annotations (store), C16_isolation_purge (purge, any pending patch), C16_isolation_touch (touch) | full for the annotation storage; status: monitor |
    | names are valid Kubernetes names                            | C16_suffix_shape, C16_len, C16_charset, C16_valid_names_partial / _refuted (F2), C16_v1_len_partial / _refuted (F12) | partial: exactly the two recorded findings are excluded |
    | identical across restarts                                   | make_keys is a function of (prefix, v1, is-DRS, id) in the model; D:keys ties it to two fresh storage instances | by construction + monitor nondeterministic-name |
@@ -278,3 +278,26 @@ Example C16_roundtrip_diffbase_nonvacuous :
   /\ (exists patch, dstore const_dg (DStatus ["status"; "kopf"; "last"]%string []) (JObj [("status", JStr "odd")]%string) (JObj []) (JObj [("spec", JObj [])]%string) = Ok patch)
   /\ JObj [] <> JNull.
 Proof. split; [eexists; vm_compute; reflexivity|]. split; [eexists; vm_compute; reflexivity|discriminate]. Qed.
+
+(* Purged completely, the DEFAULT progress storage (SmartProgressStorage: annotations first, then a read-only stanza under
+   status): after the purge NEITHER of its storages yields the record from the object as patched by an RFC 7386 server -
+   every hash, prefix, v1/v2, stanza path under status, id and body.  Guard as for the status storage: where the stanza
+   exists on the object it is a mapping. *)
+Theorem C16_purged_completely_smart : forall dg prefix v1 verbose tk frest tf key body patch,
+  (forall v, resolve body ("status"%string :: frest) = Some v -> is_obj v = true) ->
+  ppurge dg (smart prefix v1 verbose tk ("status"%string :: frest) tf) key body (JObj []) = Ok patch ->
+  pfetch dg (smart prefix v1 verbose tk ("status"%string :: frest) tf) key (merge body patch) = Ok None.
+Proof. exact smart_purge_complete. Qed.
+Print Assumptions C16_purged_completely_smart.
+
+(* an object that carries the record in BOTH places (as after an operator that used to write the status stanza) *)
+Example C16_purged_completely_smart_nonvacuous :
+  let body := JObj [("metadata", JObj [("annotations", JObj [("kopf.zalando.org/h1", JEnc (JObj [("retries", JNum 1)]))])]);
+                    ("status", JObj [("kopf", JObj [("progress", JObj [("h1", JObj [("retries", JNum 7)])])])])]%string in
+  (forall v, resolve body ["status"; "kopf"; "progress"]%string = Some v -> is_obj v = true)
+  /\ ppurge const_dg (smart "kopf.zalando.org" false false "touch-dummy" ["status"; "kopf"; "progress"] ["status"; "kopf"; "dummy"])%string "h1"%string body (JObj [])
+     = Ok (JObj [("metadata", JObj [("annotations", JObj [("kopf.zalando.org/h1", JNull)])]);
+                 ("status", JObj [("kopf", JObj [("progress", JObj [("h1", JNull)])])])]%string).
+Proof.
+  cbv zeta. split; [intros v E; vm_compute in E; injection E as <-; reflexivity|vm_compute; reflexivity].
+Qed.
